@@ -56,7 +56,7 @@ use crate::{
         context::{Context, UpgradableContext, UpgradedContext, Validator, upgrade::Upgradable},
     },
     secret_sharing::{
-        SharedValue,
+        SharedValue, SharedValueArray, Vectorizable,
         replicated::{
             ReplicatedSecretSharing,
             malicious::{AdditiveShare as MaliciousReplicated, ThisCodeIsAuthorizedToDowngradeFromMalicious},
@@ -71,7 +71,7 @@ use crate::{
 // ------------------------------------------------------------------------------------------ values
 
 /// decimal <-> little-endian bytes (Fp25519 does not fit a u128)
-fn dec_to_le(s: &str, len: usize) -> Vec<u8> {
+pub fn dec_to_le(s: &str, len: usize) -> Vec<u8> {
     let mut out = vec![0u8; len];
     for c in s.bytes() {
         assert!(c.is_ascii_digit(), "harness: bad number {s}");
@@ -86,7 +86,7 @@ fn dec_to_le(s: &str, len: usize) -> Vec<u8> {
     out
 }
 
-fn le_to_dec(bytes: &[u8]) -> String {
+pub fn le_to_dec(bytes: &[u8]) -> String {
     let mut b = bytes.to_vec();
     let mut digits = vec![];
     while b.iter().any(|x| *x != 0) {
@@ -104,11 +104,11 @@ fn le_to_dec(bytes: &[u8]) -> String {
     digits.iter().rev().collect()
 }
 
-fn val<F: Serializable>(s: &str) -> F {
+pub fn val<F: Serializable>(s: &str) -> F {
     F::deserialize_from_slice(&dec_to_le(s, F::Size::USIZE))
 }
 
-fn show<F: Serializable>(v: &F) -> String {
+pub fn show<F: Serializable>(v: &F) -> String {
     let mut buf = vec![0u8; F::Size::USIZE];
     v.serialize_to_slice(&mut buf);
     le_to_dec(&buf)
@@ -201,31 +201,31 @@ fn hid(h: HelperIdentity) -> u8 {
     }
 }
 
-/// Records the bytes seen per (gate, src, dst) channel and alters ONE field element: the one at byte `offset` of
-/// the channel whose gate ends with `suffix`, from `src` to `dst`.
-struct Tamper {
+/// one message to alter: the `size` bytes at byte `offset` of the channel whose gate ends with `suffix`,
+/// from `src` to `dst`
+struct Target {
     suffix: String,
     src: u8,
     dst: u8,
     offset: usize,
     size: usize,
+}
+
+/// Records the bytes seen per (gate, src, dst) channel and alters the targeted messages with `apply`.
+struct Tamper {
+    targets: Vec<Target>,
     apply: Box<dyn Fn(&mut [u8]) + Send + Sync>,
     seen: Mutex<BTreeMap<(String, u8, u8), usize>>,
     hits: AtomicUsize,
 }
 
 impl Tamper {
+    fn new(targets: Vec<Target>, apply: Box<dyn Fn(&mut [u8]) + Send + Sync>) -> Self {
+        Tamper { targets, apply, seen: Mutex::new(BTreeMap::new()), hits: AtomicUsize::new(0) }
+    }
+
     fn recorder() -> Self {
-        Tamper {
-            suffix: String::new(),
-            src: 0,
-            dst: 0,
-            offset: 0,
-            size: 0,
-            apply: Box::new(|_| {}),
-            seen: Mutex::new(BTreeMap::new()),
-            hits: AtomicUsize::new(0),
-        }
+        Self::new(vec![], Box::new(|_| {}))
     }
 }
 
@@ -242,16 +242,17 @@ impl StreamInterceptor for Tamper {
                 *e += data.len();
                 b
             };
-            if self.size > 0
-                && key.1 == self.src
-                && key.2 == self.dst
-                && key.0.ends_with(&self.suffix)
-                && self.offset >= before
-                && self.offset + self.size <= before + data.len()
-            {
-                let i = self.offset - before;
-                (self.apply)(&mut data[i..i + self.size]);
-                self.hits.fetch_add(1, Ordering::SeqCst);
+            for t in &self.targets {
+                if key.1 == t.src
+                    && key.2 == t.dst
+                    && key.0.ends_with(&t.suffix)
+                    && t.offset >= before
+                    && t.offset + t.size <= before + data.len()
+                {
+                    let i = t.offset - before;
+                    (self.apply)(&mut data[i..i + t.size]);
+                    self.hits.fetch_add(1, Ordering::SeqCst);
+                }
             }
         }
     }
@@ -263,7 +264,6 @@ struct Attack {
     class: String,
     target: usize,
     dir: char,
-    delta: String,
 }
 
 /// left / right peer of role index h (H1's right is H2, its left is H3)
@@ -310,24 +310,35 @@ fn kind(e: &Error) -> String {
     format!("{e:?}").chars().take_while(|c| c.is_alphanumeric() || *c == '_').collect()
 }
 
+/// lanes of a value written `l0+l1+…` (a single number = one lane)
+fn lanes_of(s: &str) -> Vec<&str> {
+    s.split('+').collect()
+}
+
 macro_rules! mac_runner {
-    ($name:ident, $f:ty) => {
+    ($name:ident, $f:ty, $n:expr) => {
         async fn $name(spec: Spec, interceptor: Option<Arc<Tamper>>, corrupt: Option<usize>) -> Outcome {
             type F = $f;
+            const N: usize = $n;
+            type Arr = <F as Vectorizable<N>>::Array;
             let mut config = TestWorldConfig::default().with_seed(spec.seed);
             if let Some(i) = interceptor {
                 config.stream_interceptor = i;
             }
             let world = TestWorld::new_with(config);
             let mut rng = Rng(spec.seed ^ 0xC04);
-            // per helper: inputs[record][k]
-            let mut per_helper: [Vec<Vec<Replicated<F>>>; 3] = [vec![], vec![], vec![]];
+            // per helper: inputs[record][k], every lane shared independently
+            let mut per_helper: [Vec<Vec<Replicated<F, N>>>; 3] = [vec![], vec![], vec![]];
             for rec in &spec.inputs {
-                let mut row: [Vec<Replicated<F>>; 3] = [vec![], vec![], vec![]];
+                let mut row: [Vec<Replicated<F, N>>; 3] = [vec![], vec![], vec![]];
                 for v in rec {
-                    let sh = share3::<F>(&mut rng, val::<F>(v));
+                    let lanes = lanes_of(v);
+                    assert_eq!(lanes.len(), N, "harness: {N} lanes expected");
+                    let sh: Vec<[Replicated<F>; 3]> = lanes.iter().map(|l| share3::<F>(&mut rng, val::<F>(l))).collect();
                     for h in 0..3 {
-                        row[h].push(sh[h].clone());
+                        let l: Arr = SharedValueArray::from_fn(|i| sh[i][h].left());
+                        let r: Arr = SharedValueArray::from_fn(|i| sh[i][h].right());
+                        row[h].push(Replicated::<F, N>::new_arr(l, r));
                     }
                 }
                 for (h, r) in row.into_iter().enumerate() {
@@ -351,7 +362,7 @@ macro_rules! mac_runner {
                             let ctx = m_ctx.clone();
                             async move {
                                 let rid = RecordId::from(i);
-                                let mut wires: Vec<MaliciousReplicated<F>> = vec![];
+                                let mut wires: Vec<MaliciousReplicated<F, N>> = vec![];
                                 let mut ins = ins.into_iter();
                                 for (k, g) in prog.iter().enumerate() {
                                     let w = match g {
@@ -373,10 +384,10 @@ macro_rules! mac_runner {
                                 }
                                 let r = ctx.r(rid);
                                 ctx.validate_record(rid).await?;
-                                let mut opened = vec![];
+                                let mut opened: Vec<Vec<F>> = vec![];
                                 for (k, w) in wires.iter().enumerate() {
-                                    let o = reveal(ctx.narrow(&format!("o{k}")), rid, w).await?;
-                                    opened.push(F::from_array(&o));
+                                    let o: Arr = reveal(ctx.narrow(&format!("o{k}")), rid, w).await?;
+                                    opened.push(o.into_iter().collect());
                                 }
                                 Ok::<_, Error>((wires, r, opened))
                             }
@@ -386,7 +397,7 @@ macro_rules! mac_runner {
                     (h, r)
                 })
                 .collect::<FuturesUnordered<_>>();
-            let mut outs: [Option<Vec<(Vec<MaliciousReplicated<F>>, Replicated<F>, Vec<F>)>>; 3] = [None, None, None];
+            let mut outs: [Option<Vec<(Vec<MaliciousReplicated<F, N>>, Replicated<F>, Vec<Vec<F>>)>>; 3] = [None, None, None];
             let needed = |h: usize| Some(h) != corrupt;
             while let Some((h, r)) = futs.next().await {
                 match r {
@@ -402,28 +413,41 @@ macro_rules! mac_runner {
             drop(futs);
             let opened: Vec<Option<Vec<Vec<String>>>> = outs
                 .iter()
-                .map(|o| o.as_ref().map(|v| v.iter().map(|(_, _, op)| op.iter().map(show::<F>).collect()).collect()))
+                .map(|o| {
+                    o.as_ref().map(|v| {
+                        v.iter()
+                            .map(|(_, _, op)| {
+                                op.iter().map(|lanes| lanes.iter().map(show::<F>).collect::<Vec<_>>().join("+")).collect()
+                            })
+                            .collect()
+                    })
+                })
                 .collect();
             // MAC / consistency check (meaningful when all three helpers finished)
             let mut mac_ok = outs.iter().all(Option::is_some);
             if mac_ok {
                 let o: Vec<_> = outs.iter().map(|x| x.as_ref().unwrap()).collect();
+                let vec_of = |a: &Arr| -> Vec<F> { a.clone().into_iter().collect() };
                 for i in 0..count {
                     let r = o[0][i].1.left() + o[1][i].1.left() + o[2][i].1.left();
                     for h in 0..3 {
                         mac_ok &= o[h][i].1.right() == o[(h + 1) % 3][i].1.left();
                     }
                     for k in 0..o[0][i].0.len() {
-                        let x = |h: usize| o[h][i].0[k].x().access_without_downgrade();
-                        let rx = |h: usize| o[h][i].0[k].rx();
-                        let xv = x(0).left() + x(1).left() + x(2).left();
-                        let rxv = rx(0).left() + rx(1).left() + rx(2).left();
-                        for h in 0..3 {
-                            mac_ok &= x(h).right() == x((h + 1) % 3).left();
-                            mac_ok &= rx(h).right() == rx((h + 1) % 3).left();
+                        let xl = |h: usize| vec_of(o[h][i].0[k].x().access_without_downgrade().left_arr());
+                        let xr = |h: usize| vec_of(o[h][i].0[k].x().access_without_downgrade().right_arr());
+                        let ml = |h: usize| vec_of(o[h][i].0[k].rx().left_arr());
+                        let mr = |h: usize| vec_of(o[h][i].0[k].rx().right_arr());
+                        for lane in 0..N {
+                            let xv = xl(0)[lane] + xl(1)[lane] + xl(2)[lane];
+                            let rxv = ml(0)[lane] + ml(1)[lane] + ml(2)[lane];
+                            for h in 0..3 {
+                                mac_ok &= xr(h)[lane] == xl((h + 1) % 3)[lane];
+                                mac_ok &= mr(h)[lane] == ml((h + 1) % 3)[lane];
+                            }
+                            mac_ok &= rxv == r * xv;
+                            mac_ok &= xv == o[0][i].2[k][lane];
                         }
-                        mac_ok &= rxv == r * xv;
-                        mac_ok &= xv == o[0][i].2[k];
                     }
                 }
             }
@@ -432,12 +456,21 @@ macro_rules! mac_runner {
     };
 }
 
-mac_runner!(run_fp31, Fp31);
-mac_runner!(run_fp32, Fp32BitPrime);
-mac_runner!(run_fp25519, Fp25519);
+mac_runner!(run_fp31, Fp31, 1);
+mac_runner!(run_fp32, Fp32BitPrime, 1);
+mac_runner!(run_fp25519, Fp25519, 1);
+mac_runner!(run_fp25519x16, Fp25519, 16);
+
+/// (scalar field name, lanes) of the field named in a request
+fn field_lanes(field: &str) -> (&str, usize) {
+    match field.split_once('x') {
+        Some((f, n)) => (f, n.parse().expect("harness: bad lane count")),
+        None => (field, 1),
+    }
+}
 
 fn size_of_field(field: &str) -> usize {
-    match field {
+    match field_lanes(field).0 {
         "Fp31" => <Fp31 as Serializable>::Size::USIZE,
         "Fp32BitPrime" => <Fp32BitPrime as Serializable>::Size::USIZE,
         "Fp25519" => <Fp25519 as Serializable>::Size::USIZE,
@@ -445,15 +478,21 @@ fn size_of_field(field: &str) -> usize {
     }
 }
 
+/// adds `delta` (lanes `d0+d1+…`) to a message of that many field elements
 fn adder(field: &str, delta: &str) -> Box<dyn Fn(&mut [u8]) + Send + Sync> {
     fn mk<F: Field + Serializable>(delta: &str) -> Box<dyn Fn(&mut [u8]) + Send + Sync> {
-        let d = val::<F>(delta);
+        let d: Vec<F> = lanes_of(delta).iter().map(|l| val::<F>(l)).collect();
+        let sz = F::Size::USIZE;
         Box::new(move |buf: &mut [u8]| {
-            let v = F::deserialize_from_slice(buf) + d;
-            v.serialize_to_slice(buf);
+            assert_eq!(buf.len(), sz * d.len());
+            for (i, d) in d.iter().enumerate() {
+                let slot = &mut buf[i * sz..(i + 1) * sz];
+                let v = F::deserialize_from_slice(slot) + *d;
+                v.serialize_to_slice(slot);
+            }
         })
     }
-    match field {
+    match field_lanes(field).0 {
         "Fp31" => mk::<Fp31>(delta),
         "Fp32BitPrime" => mk::<Fp32BitPrime>(delta),
         "Fp25519" => mk::<Fp25519>(delta),
@@ -471,6 +510,7 @@ fn run_blocking(field: &str, spec: Spec, interceptor: Option<Arc<Tamper>>, corru
             "Fp31" => run_fp31(spec, interceptor, corrupt).await,
             "Fp32BitPrime" => run_fp32(spec, interceptor, corrupt).await,
             "Fp25519" => run_fp25519(spec, interceptor, corrupt).await,
+            "Fp25519x16" => run_fp25519x16(spec, interceptor, corrupt).await,
             f => panic!("harness: unknown field {f}"),
         }
     })
@@ -515,26 +555,31 @@ fn exec_mac(req: &str) -> String {
             }
         }
         "c04.attack" => {
-            let a = Attack {
-                corrupt: t[7].parse::<usize>().unwrap() - 1,
-                class: t[8].to_string(),
-                target: t[9].parse().unwrap(),
-                dir: t[10].chars().next().unwrap(),
-                delta: t[11].to_string(),
-            };
-            let (suffix, dest, record) = locate(&a);
+            let corrupt = t[7].parse::<usize>().unwrap() - 1;
+            let classes: Vec<&str> = t[8].split('&').collect();
+            let dirs: Vec<&str> = t[10].split('&').collect();
+            assert_eq!(classes.len(), dirs.len(), "harness: one direction per class");
             let size = size_of_field(t[1]);
-            let tamper = Arc::new(Tamper {
-                suffix,
-                src: a.corrupt as u8 + 1,
-                dst: dest as u8 + 1,
-                offset: record * size,
-                size,
-                apply: adder(t[1], &a.delta),
-                seen: Mutex::new(BTreeMap::new()),
-                hits: AtomicUsize::new(0),
-            });
-            let out = run_blocking(t[1], spec, Some(tamper.clone()), Some(a.corrupt));
+            let lanes = field_lanes(t[1]).1;
+            let mut targets = vec![];
+            for (class, dir) in classes.iter().zip(&dirs) {
+                let a = Attack {
+                    corrupt,
+                    class: (*class).to_string(),
+                    target: t[9].parse().unwrap(),
+                    dir: dir.chars().next().unwrap(),
+                };
+                let (suffix, dest, record) = locate(&a);
+                // validator messages are scalar; per-record messages carry one element per lane
+                let scalar = suffix.starts_with("/validate/");
+                let msg = if scalar { size } else { size * lanes };
+                targets.push(Target { suffix, src: corrupt as u8 + 1, dst: dest as u8 + 1, offset: record * msg, size: msg });
+            }
+            let n_targets = targets.len();
+            let scalar_only = targets.iter().all(|x| x.size == size);
+            let delta = if scalar_only { lanes_of(t[11])[0].to_string() } else { t[11].to_string() };
+            let tamper = Arc::new(Tamper::new(targets, adder(t[1], &delta)));
+            let out = run_blocking(t[1], spec, Some(tamper.clone()), Some(corrupt));
             let hits = tamper.hits.load(Ordering::SeqCst);
             match out {
                 Err(_) => {
@@ -544,12 +589,18 @@ fn exec_mac(req: &str) -> String {
                         "abort:hang".into()
                     }
                 }
-                Ok(Outcome::Abort(_)) => "abort:error".into(),
-                Ok(Outcome::Done(opened, _)) => {
+                Ok(Outcome::Abort(_)) => {
                     if hits == 0 {
+                        "untouched".into()
+                    } else {
+                        "abort:error".into()
+                    }
+                }
+                Ok(Outcome::Done(opened, _)) => {
+                    if hits < n_targets {
                         return "untouched".into();
                     }
-                    let o: Vec<_> = (0..3).filter(|h| *h != a.corrupt).map(|h| opened[h].as_ref().unwrap()).collect();
+                    let o: Vec<_> = (0..3).filter(|h| *h != corrupt).map(|h| opened[h].as_ref().unwrap()).collect();
                     if o[0] != o[1] {
                         return format!("disagree {}|{}", show_opened(o[0]), show_opened(o[1]));
                     }
@@ -608,18 +659,24 @@ fn n_inputs(prog: &str) -> usize {
 
 fn gen_inputs(rng: &mut Rng, field: &str, prog: &str, count: usize, edges_first: bool, nonzero: bool) -> String {
     let k = n_inputs(prog);
-    let e = edge_vals(field);
+    let (base, lanes) = field_lanes(field);
+    let e = edge_vals(base);
     (0..count)
         .map(|i| {
             (0..k)
                 .map(|j| {
-                    if edges_first && i < e.len() {
-                        e[(i + j * 2) % e.len()].clone()
-                    } else if nonzero {
-                        nonzero_val(rng, field)
-                    } else {
-                        rand_val(rng, field)
-                    }
+                    (0..lanes)
+                        .map(|l| {
+                            if edges_first && i < e.len() {
+                                e[(i + j * 2 + l) % e.len()].clone()
+                            } else if nonzero {
+                                nonzero_val(rng, base)
+                            } else {
+                                rand_val(rng, base)
+                            }
+                        })
+                        .collect::<Vec<_>>()
+                        .join("+")
                 })
                 .collect::<Vec<_>>()
                 .join(":")
@@ -683,10 +740,63 @@ fn verif_c04_honest() {
                     out.push(format!("c04.chan {field} {rpb} {count} {} {prog} {inputs}", rng.below(1 << 30)));
                 }
             }
+            // the production shape: 16-lane Fp25519 shares (eval_dy_prf)
+            let vshapes: &[(usize, usize, &str)] = if thorough {
+                &[(2, 1, "u.u.m0:1"), (2, 3, "u.u.m0:1.a2:0.m3:1"), (4, 4, "u"), (4, 9, "u.u.m0:1.m2:1.m3:0.a4:2"), (8, 5, "u.m0:0.n1")]
+            } else {
+                &[(2, 1, "u.u.m0:1"), (2, 3, "u.u.m0:1.a2:0.m3:1"), (4, 5, "u.m0:0.n1")]
+            };
+            for (n, (rpb, count, prog)) in vshapes.iter().enumerate() {
+                let inputs = gen_inputs(rng, "Fp25519x16", prog, *count, n == 0, false);
+                out.push(format!("c04.honest Fp25519x16 {rpb} {count} {} {prog} {inputs}", rng.below(1 << 30)));
+            }
+            let inputs = gen_inputs(rng, "Fp25519x16", "u.u.m0:1", 3, false, false);
+            out.push(format!("c04.chan Fp25519x16 2 3 {} u.u.m0:1 {inputs}", rng.below(1 << 30)));
             out
         },
         exec_mac,
     );
+}
+
+/// per-lane offsets (16 lanes) of the vectorised attacks
+fn lane_deltas(rng: &mut Rng, pattern: usize) -> String {
+    let mut d = vec!["0".to_string(); 16];
+    match pattern {
+        // +d on one lane, -d on another: the offsets cancel in the sum over the lanes
+        0 => {
+            d[0] = "1".into();
+            d[1] = ELL_M1.into();
+        }
+        1 => {
+            let i = rng.usize_below(16);
+            let j = (i + 1 + rng.usize_below(15)) % 16;
+            let v = (rng.next_u128() >> 4) + 1;
+            d[i] = v.to_string();
+            // ell - v
+            let ell_m1 = dec_to_le(ELL_M1, 32);
+            let mut neg = Fp25519::deserialize_from_slice(&ell_m1) + Fp25519::ONE;
+            neg = neg - val::<Fp25519>(&v.to_string());
+            d[j] = show::<Fp25519>(&neg);
+        }
+        // three lanes summing to zero: 1 + 1 + (ell - 2)
+        2 => {
+            d[3] = "1".into();
+            d[7] = "1".into();
+            d[15] = show::<Fp25519>(&(val::<Fp25519>(ELL_M1) - Fp25519::ONE));
+        }
+        // the same offset on every lane
+        3 => {
+            let v = nonzero_val(rng, "Fp25519");
+            for x in d.iter_mut() {
+                *x = v.clone();
+            }
+        }
+        // a single lane
+        _ => {
+            d[rng.usize_below(16)] = nonzero_val(rng, "Fp25519");
+        }
+    }
+    d.join("+")
 }
 
 #[test]
@@ -740,6 +850,62 @@ fn verif_c04_attack() {
                     }
                 }
             }
+            // two coordinated messages: the error on a multiplication message and the same error on the copy the
+            // deviating helper later opens towards its right peer, so that the two-copy check of the opening has
+            // nothing to complain about — only the MAC check can catch it. The attacked product is not consumed
+            // by a later gate.
+            for field in fields {
+                for (k, (prog, classes, dirs)) in [
+                    ("u.u.m0:1", "mulx:2&reveal:2", "-&R"),
+                    ("u.u.m0:1.a2:0", "mulx:2&reveal:2&reveal:3", "-&R&R"),
+                    ("u.u.u.m0:1.m3:2", "mulx:4&reveal:4", "-&R"),
+                ]
+                .iter()
+                .enumerate()
+                {
+                    for later in [false, true] {
+                        let rpb = [2usize, 4][k % 2];
+                        let count = if later { rpb + 1 + rng.usize_below(rpb) } else { 1 + rng.usize_below(rpb) };
+                        let target = if later { rpb + rng.usize_below(count - rpb) } else { rng.usize_below(count) };
+                        let corrupt = 1 + (k + usize::from(later)) % 3;
+                        let delta = nonzero_val(rng, field);
+                        let inputs = gen_inputs(rng, field, prog, count, false, true);
+                        out.push(format!(
+                            "c04.attack {field} {rpb} {count} {} {prog} {inputs} {corrupt} {classes} {target} {dirs} {delta}",
+                            rng.below(1 << 30)
+                        ));
+                    }
+                }
+            }
+            // vectorised shares (16 lanes of Fp25519, the shape of eval_dy_prf): lane-correlated errors
+            let field = "Fp25519x16";
+            let vcases: [(&str, &str, &str); 6] = [
+                ("u.u.m0:1", "mulx:2&reveal:2", "-&R"),
+                ("u.u.m0:1", "mulx:2", "-"),
+                ("u.u.m0:1", "mulrx:2", "-"),
+                ("u.u.m0:1", "upgrade:0", "-"),
+                ("u", "upgrade:0", "-"),
+                ("u.u.m0:1.a2:0.m3:1", "mulx:4&reveal:4", "-&R"),
+            ];
+            let patterns = if thorough { 5 } else { 3 };
+            for (k, (prog, classes, dirs)) in vcases.iter().enumerate() {
+                for pattern in 0..patterns {
+                    if !thorough && k >= 2 && pattern != k % 3 {
+                        continue;
+                    }
+                    let later = (k + pattern) % 2 == 1;
+                    let rpb = 2usize;
+                    let count = if later { 3 } else { 1 + rng.usize_below(2) };
+                    let target = if later { 2 } else { rng.usize_below(count) };
+                    let corrupt = 1 + (k + pattern) % 3;
+                    let delta = lane_deltas(rng, pattern);
+                    let inputs = gen_inputs(rng, field, prog, count, false, true);
+                    out.push(format!(
+                        "c04.attack {field} {rpb} {count} {} {prog} {inputs} {corrupt} {classes} {target} {dirs} {delta}",
+                        rng.below(1 << 30)
+                    ));
+                }
+            }
             out
         },
         exec_mac,
@@ -790,16 +956,10 @@ fn exec_reveal(req: &str) -> String {
     let tamper = match (opt_role(t[5]), opt_role(t[6])) {
         (Some(at), Some(dest)) => {
             let size = size_of_field(&field);
-            Some(Arc::new(Tamper {
-                suffix: "/c04reveal".into(),
-                src: at as u8 + 1,
-                dst: dest as u8 + 1,
-                offset: 0,
-                size,
-                apply: adder(&field, t[7]),
-                seen: Mutex::new(BTreeMap::new()),
-                hits: AtomicUsize::new(0),
-            }))
+            Some(Arc::new(Tamper::new(
+                vec![Target { suffix: "/c04reveal".into(), src: at as u8 + 1, dst: dest as u8 + 1, offset: 0, size }],
+                adder(&field, t[7]),
+            )))
         }
         _ => None,
     };
